@@ -1,9 +1,9 @@
-\* generator: every document of <= 5 nodes, printed for the builder binding (vh builder-replay, Trace_Builder)
+\* generator: every document of <= 5 nodes (also rules, tables and ordered lists), printed for the builder binding (vh builder-replay, Trace_Builder)
 SPECIFICATION SpecB
 CONSTANTS
   Slip <- NoSlip
-  LeafKinds <- BLeaves
-  ContKinds <- BConts
+  LeafKinds <- BLeavesAll
+  ContKinds <- BContsOL
   MaxNodes = 5
   MaxDepth = 2
 INVARIANT EmitB
